@@ -1,4 +1,6 @@
 import CsVerif.Model.C18
+import CsVerif.Model.C18Gen
+import CsVerif.Model.PyUShow
 /-! Line-protocol driver for the C18 model.
 
 PE ops:   `<op> <kind B|O> <data xhex> <pos0> <start none|n> <maxrange> <expect (ignored)>`   with op ∈ mz arch stamps mmz mpe ppa
@@ -12,6 +14,18 @@ version:  `ver l<code points>`            → `ok none` | `exc ValueError` | `ok
           `pehist <kind> <data> <maxrange> <op:start:seek:expect|…>` → answers of successive pe.find_* calls on ONE file object
           `cls <lo> <hi>`                 → one character per code point in [lo, hi): `s` = `\s`, `0`..`9` = value of a `\d`, `-`
           `mono pe|enum <k1> <k2>`        → `T`/`F`: k1 < k2 ⇒ (tuple, date) of k1 ≤ those of k2 (both keys in the table)
+`g-*` streams — the definitions TRANSLATED from the source of pe.py (Gen/PyPe.lean):
+          `g<op> <kind> <data> <pos0> <start none|n|dflt> <maxrange n|dflt> <expect>` → the same format as `<op>` (`dflt` = the argument is
+                                             left out of the call: the default of the SOURCE is used; a value of an unexpected shape: `?…`)
+          `gpehist <kind> <data> <maxrange> <op:start:seek:expect|…>` → as `pehist` (after an exception the file object of the hand model goes on)
+          `garg <op> <file:V> <start:V> <maxrange:V>` → `ok <result:V> <final tell>` | `exc <E>`  (arguments of any kind, notation of PyUShow;
+                                             a file object is `I9000[b<data>;i<pos>;i<kind>]`)
+`pyu` stream — the operations of Model/PyU_T18.lean:
+          `pyu sread <type> <file:V>` / `pyu sreadn <type> <file:V> <n:V>` → `ok <value:V> <tell>` | `eof <tell>` | `exc <E>`  (`Type(fh)`,
+                                             `[Type(fh) for _ in range(n)]`; type names: `Gen.PyPe.typeTable`)
+          `pyu tobytes <n:V> <len:V> <order:V>` → `ok <V>` | `exc <E>`
+version:  `gtbl pe|enum <key>` / `gcfg <stamp> l<enums>` / `ghist l<enums> <ops>` → as `tbl` / `cfg` / `hist`, through the translated
+          `BeaconVersion.from_*` / `BeaconConfig.version` (constructor = the model's `parseVersion`); `gargv pe|enum <key:V>` → as `tbl`
 -/
 namespace C18
 open Proto
@@ -94,6 +108,183 @@ def showCfgOut : CfgOut → String
   | .version (.ok t) => s!"{showNats t} {showVer (parseVersion t)}"
   | .maxEnum r => showPy toString r
 
+/-! ### `g-*` / `pyu` streams: the translated definitions -/
+
+def vTell? (v : PyU.V) : Option Nat := (PyU.asFile v).map (·.2.1)
+
+def vOptInt? : PyU.V → Option String
+  | .none => some "none"
+  | .int n => some (toString n)
+  | _ => none
+
+def vOptBytes? : PyU.V → Option String
+  | .none => some "none"
+  | .bytes b => some (showBytes b)
+  | _ => none
+
+def vOptStr? : PyU.V → Option String
+  | .none => some "none"
+  | .str cs => some (String.ofList (cs.map Char.ofNat))
+  | _ => none
+
+/-- the result tokens of a translated helper, in the format of `showPeOut` -/
+def vPeTokens (op : PeOp) (x : PyU.V) : Option String :=
+  match op, x with
+  | .mz, x => vOptInt? x
+  | .arch, x => vOptStr? x
+  | .stamps, .tuple [c, e] => match vOptInt? c, vOptInt? e with
+    | some c, some e => some s!"ok {c} {e}"
+    | _, _ => none
+  | .mmz, x => vOptBytes? x
+  | .mpe, x => (vOptBytes? x).map ("ok " ++ ·)
+  | .ppa, .tuple [p, a] => match vOptBytes? p, vOptBytes? a with
+    | some p, some a => some s!"ok {p} {a}"
+    | _, _ => none
+  | _, _ => none
+
+def showPeV (op : PeOp) (r : Py PyU.V) : String :=
+  match r with
+  | .error e => "exc " ++ e.name
+  | .ok (.tuple [x, f]) =>
+    match vPeTokens op x, vTell? f with
+    | some t, some p => s!"{t} {p}"
+    | _, _ => "?pe"
+  | .ok _ => "?pe"
+
+def clsOf (cid : Nat) : Option PyU.Cls := if cid == 9000 then some PyU.FileCls else none
+
+def vTok (s : String) : Option PyU.V := PyU.vTok (fun _ => none) clsOf s
+
+/-- `none`, an int, or `dflt` (the argument is left out: the default of the source) -/
+def argTok (dflt : PyU.V) (s : String) : Option PyU.V :=
+  if s == "dflt" then some dflt else if s == "none" then some .none else (intTok s).map .int
+
+def vPair (r : PyU.V × PyU.V) : String :=
+  match vTell? r.2 with
+  | some t => s!"ok {PyU.vShow r.1} {t}"
+  | none => s!"ok {PyU.vShow r.1} -"
+
+def vOptPair (r : Option PyU.V × PyU.V) : String :=
+  match r.1, vTell? r.2 with
+  | some v, some t => s!"ok {PyU.vShow v} {t}"
+  | none, some t => s!"eof {t}"
+  | _, none => "?file"
+
+def showPy' (f : α → String) : Py α → String
+  | .ok a => f a
+  | .error e => "exc " ++ e.name
+
+/-- several translated calls on ONE file object; after an exception (the translated definition has discarded the file) the file of
+the hand-written model goes on -/
+def gpeRun (maxrange : Nat) : PyFile → List PeCall → List String
+  | _, [] => []
+  | f, c :: cs =>
+    let f0 := seekOpt f c.seekTo
+    let r := C18Gen.peCallG f0 c.start maxrange c.op
+    let next : PyFile :=
+      match r with
+      | .ok (.tuple [_, fv]) =>
+        match PyU.asFile fv with
+        | some (d, p, _) => { data := d, pos := p, kind := f0.kind }
+        | none => (peCall f0 c.start maxrange c.op).2
+      | _ => (peCall f0 c.start maxrange c.op).2
+    showPeV c.op r :: gpeRun maxrange next cs
+
+/-- a `BeaconVersion` object of the model (`C18Gen.encVersion`): the text and what the constructor parsed -/
+def vVersion? : PyU.V → Option (Txt × Option VersionInfo)
+  | .inst c [.str t, .none, .none] => if c == C18Gen.BeaconVersionCls then some (t, none) else none
+  | .inst c [.str t, .tuple tu, .tuple [.int y, .int m, .int dd]] =>
+    if c == C18Gen.BeaconVersionCls then
+      (tu.mapM fun (x : PyU.V) => match x with | PyU.V.int n => some n.toNat | _ => none).map fun l => (t, some ⟨l, ⟨y.toNat, m.toNat, dd.toNat⟩⟩)
+    else none
+  | _ => none
+
+/-- `<text> <ver answer>` as the `tbl` stream shows it -/
+def showVersionV (r : Py PyU.V) : String :=
+  match r with
+  | .error e => "exc " ++ e.name
+  | .ok v =>
+    match vVersion? v with
+    | some (t, info) => s!"{showNats t} {showVer (.ok info)}"
+    | none => "?version"
+
+/-- a history on ONE BeaconConfig with the reads of `.version` done by the TRANSLATED property -/
+def gcfgRun (enums : List Nat) : CfgState → List CfgOp → List String
+  | _, [] => []
+  | s, op :: ops =>
+    (match op with
+     | .readVersion => [showVersionV (C18Gen.configVersionG s.exportStamp enums)]
+     | .readMaxEnum => [showCfgOut (.maxEnum (maxEnumOf enums))]
+     | _ => []) ++ gcfgRun enums (cfgNext s op) ops
+
+def gstep : List String → String
+  | ["gtbl", which, key] =>
+    match intTok key with
+    | some key =>
+      if which == "pe" then showVersionV (Gen.PyPe.from_pe_export_stamp C18Gen.beaconVersionM .none (.int key))
+      else if which == "enum" then showVersionV (Gen.PyPe.from_max_setting_enum C18Gen.beaconVersionM .none (.int key))
+      else "bad-op"
+    | none => "bad-op"
+  | ["gargv", which, key] =>
+    match vTok key with
+    | some key =>
+      if which == "pe" then showVersionV (Gen.PyPe.from_pe_export_stamp C18Gen.beaconVersionM .none key)
+      else if which == "enum" then showVersionV (Gen.PyPe.from_max_setting_enum C18Gen.beaconVersionM .none key)
+      else "bad-op"
+    | none => "bad-op"
+  | ["gcfg", stamp, enums] =>
+    match optTok intTok stamp, natsTok enums with
+    | some stamp, some enums =>
+      match C18Gen.configVersionG stamp enums with
+      | .error e => "exc " ++ e.name
+      | .ok v => match vVersion? v with
+        | some (t, _) => "ok " ++ showNats t
+        | none => "?version"
+    | _, _ => "bad-op"
+  | ["ghist", enums, ops] =>
+    match natsTok enums, (ops.splitOn "|").mapM cfgOpTok with
+    | some enums, some ops => " | ".intercalate (gcfgRun enums {} ops)
+    | _, _ => "bad-op"
+  | ["gpehist", k, d, maxrange, calls] =>
+    match kindTok k, bytesTok d, natTok maxrange with
+    | some k, some d, some maxrange =>
+      match (calls.splitOn "|").mapM peCallTok with
+      | some cs => " | ".intercalate (gpeRun maxrange (mkFile k d 0) cs)
+      | none => "bad-op"
+    | _, _, _ => "bad-op"
+  | ["garg", op, f, s, m] =>
+    match peOpTok op, vTok f, vTok s, vTok m with
+    | some op, some f, some s, some m =>
+      match C18Gen.peCallV f s m op with
+      | .error e => "exc " ++ e.name
+      | .ok (.tuple [x, f']) => vPair (x, f')
+      | .ok _ => "?pe"
+    | _, _, _, _ => "bad-op"
+  | ["pyu", "sread", ty, f] =>
+    match Gen.PyPe.typeTable.find? (·.1 == ty), vTok f with
+    | some (_, ty), some f => showPy' vOptPair (PyU.t18ReadE ty f)
+    | _, _ => "bad-op"
+  | ["pyu", "sreadn", ty, f, n] =>
+    match Gen.PyPe.typeTable.find? (·.1 == ty), vTok f, vTok n with
+    | some (_, ty), some f, some n => showPy' vOptPair (PyU.t18ReadManyE ty f n)
+    | _, _, _ => "bad-op"
+  | ["pyu", "tobytes", n, l, o] =>
+    match vTok n, vTok l, vTok o with
+    | some n, some l, some o => showPy' (fun v => "ok " ++ PyU.vShow v) (PyU.t18ToBytes n l o)
+    | _, _, _ => "bad-op"
+  | [gop, k, d, pos, start, maxrange, _expect] =>
+    match gop.toList with
+    | 'g' :: opc =>
+      match peOpTok (String.ofList opc) with
+      | some op =>
+        match kindTok k, bytesTok d, natTok pos, argTok (C18Gen.dfltStart op) start, argTok (C18Gen.dfltMaxrange op) maxrange with
+        | some k, some d, some pos, some start, some maxrange =>
+          showPeV op (C18Gen.peCallV (C15Gen.encFile (mkFile k d pos)) start maxrange op)
+        | _, _, _, _, _ => "bad-op"
+      | none => "bad-op"
+    | _ => "bad-op"
+  | _ => "bad-op"
+
 def step : List String → String
   | ["fmt", maj, mn, patch, y, m, d] =>
     match natTok maj, natTok mn, optTok natTok patch, natTok y, natTok m, natTok d with
@@ -101,7 +292,8 @@ def step : List String → String
       let t := formatVersion maj mn patch ⟨y, m, d⟩
       s!"{showNats t} {showVer (parseVersion t)}"
     | _, _, _, _, _, _ => "bad-op"
-  | [op, k, d, pos, start, maxrange, _expect] =>
+  | [op, k, d, pos, start, maxrange, expect] =>
+    if (peOpTok op).isNone then gstep [op, k, d, pos, start, maxrange, expect] else
     match kindTok k, bytesTok d, natTok pos, optTok natTok start, natTok maxrange with
     | some k, some d, some pos, some start, some maxrange => peOp op (mkFile k d pos) start maxrange
     | _, _, _, _, _ => "bad-op"
@@ -171,6 +363,6 @@ def step : List String → String
     match optTok intTok stamp, natsTok enums with
     | some stamp, some enums => showPy showNats (configVersion stamp enums)
     | _, _ => "bad-op"
-  | _ => "bad-op"
+  | ws => gstep ws
 
 end C18
